@@ -43,7 +43,8 @@ PROP = dict(
 THEOREMS = ["Wtf.C03." + t for t in (
     "code_facts", "postings", "postings_meaning", "df", "lens", "n", "totals", "scores_eq_scan", "scores_lookup", "scan_entry_iff",
     "scores_minIdfOff", "candidates_exact", "candidates_exact_general", "result_scores", "terms_small", "default_cap", "terms_first_four",
-    "terms_bound", "fresh", "search_fresh", "loaded_caches_wf", "indexed_tokens_ascii")]
+    "terms_bound", "fresh", "search_fresh", "loaded_caches_wf", "tokenize_toLower", "tokenize_joinSp", "indexed_tokens",
+    "indexed_tokens_ascii")]
 
 ASSERTIONS = ["stopwords:func", "stopwords:literal", "stopwords:tokenizer-uses-nlp.StopWords", "bm25:defaultParams", "bm25:params-literal",
               "c03:SearchUniversal", "c03:lazy-rebuild-condition", "c03:lazy-rebuild-both", "c03:term-cap", "c03:selectTopTerms", "c03:preserve-count",
@@ -107,5 +108,5 @@ def run(ctx):
     # (d) histories
     ctx.correspond("c03", 600 if quick else 8000, name="c03-hist", args={"stream": "hist"}, nontrivial=nt_hist, seed_offset=5)
     d = ctx.cov["distribution"]
-    for k in ("search-c03scan.c03-exact-checked", "c03-hist.hsearch", "c03-index.snapshot-nonempty"):
+    for k in ("search-c03scan.c03-exact-checked", "c03-hist.hsearch", "c03-index.snapshot-nonempty", "c03-index.foldscan"):
         ctx.oblige("coverage:" + k, "coverage", d.get(k, 0) > 0, "%s=%d" % (k, d.get(k, 0)))
